@@ -92,7 +92,7 @@ var (
 		p.PGroup, p.PBypass, p.PFailCheckAct, p.PContFail, p.MaxContFailRun = 55, 10, 12, 45, 6
 		p.PFailSeqAct, p.PGate, p.DeferredRetries0 = 15, 60, true
 		p.ContDelays = []int{0, 0, 1, 2, 4}
-		p.PLongHold = 3
+		p.PLongHold = 12
 	})
 	pfDurability = withProfile(lab.ProfileDefault, func(p *lab.Profile) {
 		p.Name = "durability"
@@ -275,7 +275,7 @@ func TestC07(t *testing.T) {
 	vprop.Run(t, engineSpec("C07", []lab.Profile{pfCont}, lab.RunOpts{}, func(rr *lab.RunResult, res *vprop.Result) {
 		late, held := lab.CheckC07(rr, res)
 		if held {
-			res.Label("held-250ms-under-cont-check")
+			res.Label("held-under-cont-check-until-rerun")
 		}
 		if late {
 			res.NonTrivial = true
